@@ -94,6 +94,11 @@ let () =
              | FenOk p ->
                let legal = legalOf p in
                out ("S" ^ String.concat "" (List.map (fun h -> " " ^ mv_num (stringToMove p legal (str_of_hex h))) (List.tl args))))
+          | "cnt" ->
+            (* number of pseudo-legal moves of the position by the FIDE Spec (the C++ MoveList holds 256) *)
+            (match readFEN zk (str_of_hex (List.hd args)) with
+             | FenErr _ -> out "C -1"
+             | FenOk p -> out (Printf.sprintf "C %d" (List.length (pseudo_moves { sp_board = p.squares; sp_white = p.whiteMove; sp_castle = p.castleMask; sp_ep = p.epSquare }))))
           | "ucm" ->
             out line;
             out ("V" ^ String.concat "" (List.map (fun h -> " " ^ mv_num (uciStringToMove (str_of_hex h))) args))
